@@ -5,6 +5,7 @@ import (
 	"compress/gzip"
 	"encoding/json"
 	"fmt"
+	"math"
 	"os"
 	"path/filepath"
 	"runtime/debug"
@@ -225,10 +226,7 @@ type Damage struct {
 func (r *Runner) collDir() string { return filepath.Join(r.root, expectedDir(r.cfg.Plain, r.cfg.Lc)) }
 
 func (r *Runner) fileSuffix() string {
-	s := r.cfg.Ext
-	if s == "" {
-		s = ".json"
-	}
+	s := extOf(r.cfg)
 	if r.cfg.Gz {
 		s += ".gz"
 	}
@@ -577,6 +575,19 @@ func (r *Runner) corrupt(op *Op) {
 			call("get", func() error { _, err := r.db.GetByUUID(proto(), uu); return err })
 		}
 	}
+	// a full scan (search on the unindexed field V, matching everything) either fails or has looked at every object:
+	// the objects it returns are as many as the index counts ("never objects for a query that could not be evaluated")
+	scan := ev{}
+	r.guardClass(func() error {
+		n, err := r.db.Count(proto())
+		scan["count_c"], scan["count"] = classify(err), n
+		objs, err := r.db.Search(proto(), "V", ">=", -1<<40).Collect()
+		scan["c"], scan["n"] = classify(err), len(objs)
+		objs, err = r.db.Search(proto(), "K", ">=", int64(math.MinInt64)).And("V", ">=", -1<<40).Collect()
+		scan["and_c"], scan["and_n"] = classify(err), len(objs)
+		return nil
+	})
+	e["scan"] = scan
 	call("search", func() error { _, err := r.db.Search(proto(), "K", ">=", int64(0)).Collect(); return err })
 	call("searchall", func() error { _, err := r.db.Search(proto(), "V", ">=", 0).Collect(); return err })
 	call("assignindex", func() error { var t []int64; return r.db.AssignIndex(proto(), "K", &t) })
